@@ -135,6 +135,23 @@ class Engine:
                 acc = it.and_(acc, it.truth(it.equal(x, y)))
         return it.wrap_bool(acc)
 
+    def const_value(self, ctx, v):
+        """A python constant from a sidecar -> engine value (dicts and lists become heap objects)."""
+        if isinstance(v, specmod.EnumKey):
+            return VEnum(v.cls, v.member)
+        if isinstance(v, dict):
+            return ctx.alloc(HDict({self.const_value(ctx, k): self.const_value(ctx, x) for k, x in v.items()}))
+        if isinstance(v, list):
+            return ctx.alloc(HList([self.const_value(ctx, x) for x in v]))
+        if isinstance(v, set):
+            return ctx.alloc(HSet([self.const_value(ctx, x) for x in v]))
+        if isinstance(v, tuple):
+            return tuple(self.const_value(ctx, x) for x in v)
+        if isinstance(v, float):
+            from .values import float_literal
+            return float_literal(v)
+        return v
+
     def dict_key(self, key):
         """Key of a DictOpt shape -> the engine's value for it."""
         if isinstance(key, specmod.EnumKey):
@@ -310,7 +327,10 @@ class Engine:
             ctx.assume(z3.And(z >= 0, z < len(members)))
             return SEnum(shape.cls, list(members), z)
         if k == "const":
-            return shape.value
+            return self.const_value(ctx, shape.value)
+        if k == "subset":
+            items = [e for e in shape.elems if ctx.branch(z3.Bool(f"{name}.has[{e!r}]"), f"{e!r} in {name}")]
+            return frozenset(items) if shape.frozen else ctx.alloc(HSet(items))
         if k == "opaque":
             return Opaque(shape.tag)
         if k == "seq":
